@@ -43,6 +43,36 @@ macro_rules! rank_harness {
     };
 }
 
+/// Structured contents for the variants with large blocks: `N` words of
+/// a concrete fill (all zeros or all ones -- the latter drives every
+/// relative counter to its maximum), with the words around block and
+/// sub-block boundaries and the tail word symbolic.
+macro_rules! rank_structured {
+    ($name:ident, $N:expr, $LEN:expr, $UNW:literal, $build:expr, [$($idx:expr),+]) => {
+        #[kani::proof]
+        #[kani::unwind($UNW)]
+        pub fn $name() {
+            const N: usize = $N;
+            const LEN: usize = $LEN;
+            let fill: bool = kani::any();
+            let mut words = [if fill { !0usize } else { 0usize }; N];
+            $( words[$idx] = kani::any(); )+
+            let bits = unsafe { BitVec::from_raw_parts(words, LEN) };
+            let r = $build(bits);
+            let p: usize = kani::any();
+            let q = if p < LEN { p } else { LEN };
+            let exp = ones_before(&words, q);
+            assert_eq!(r.rank(p), exp);
+            assert_eq!(r.rank_zero(p), p - exp);
+            assert_eq!(r.num_ones(), ones_before(&words, LEN));
+            kani::cover!(fill && p < LEN && exp >= 1000, "about a thousand ones before the position (wide relative counters)");
+            kani::cover!(!fill && p < LEN && exp > 0, "sparse contents");
+            kani::cover!(p >= LEN);
+            std::mem::forget(r);
+        }
+    };
+}
+
 type Bv<const N: usize> = BitVec<[usize; N]>;
 
 fn rank9<const N: usize>(b: Bv<N>) -> Rank9<Bv<N>> {
@@ -83,35 +113,6 @@ pub mod q {
     // RankSmall<1,11> (32 words per block, sub-blocks of 8 words): one block
     rank_harness!(rs3_n5_len300, 5, 300, 36, rs3::<5>);
 
-    /// Structured contents for the variants with large blocks: `N` words of
-    /// a concrete fill (all zeros or all ones -- the latter drives every
-    /// relative counter to its maximum), with the words around block and
-    /// sub-block boundaries and the tail word symbolic.
-    macro_rules! rank_structured {
-        ($name:ident, $N:expr, $LEN:expr, $UNW:literal, $build:expr, [$($idx:expr),+]) => {
-            #[kani::proof]
-            #[kani::unwind($UNW)]
-            pub fn $name() {
-                const N: usize = $N;
-                const LEN: usize = $LEN;
-                let fill: bool = kani::any();
-                let mut words = [if fill { !0usize } else { 0usize }; N];
-                $( words[$idx] = kani::any(); )+
-                let bits = unsafe { BitVec::from_raw_parts(words, LEN) };
-                let r = $build(bits);
-                let p: usize = kani::any();
-                let q = if p < LEN { p } else { LEN };
-                let exp = ones_before(&words, q);
-                assert_eq!(r.rank(p), exp);
-                assert_eq!(r.rank_zero(p), p - exp);
-                assert_eq!(r.num_ones(), ones_before(&words, LEN));
-                kani::cover!(fill && p < LEN && exp >= 1000, "about a thousand ones before the position (wide relative counters)");
-                kani::cover!(!fill && p < LEN && exp > 0, "sparse contents");
-                kani::cover!(p >= LEN);
-                std::mem::forget(r);
-            }
-        };
-    }
     // RankSmall<1,10>: 16 words per block, sub-blocks of 4 words
     rank_structured!(rs2_structured_n33, 33, 64 * 33 - 9, 36, rs2::<33>, [0, 3, 4, 15, 16, 32]);
     // RankSmall<1,11>: 32 words per block, sub-blocks of 8 words
@@ -234,8 +235,9 @@ pub mod t {
     rank_harness!(rs2_n17_len1087, 17, 1087, 20, rs2::<17>);
     rank_harness!(rs2_n33_len2111, 33, 2111, 36, rs2::<33>);
     rank_harness!(rs2_n33_len2049, 33, 2049, 36, rs2::<33>);
+    // two blocks plus a word of RankSmall<1,11>: 65 fully symbolic words do not finish in 25 min;
+    // structured contents (concrete fill, symbolic boundary words) instead
+    rank_structured!(rs3_structured_n65, 65, 64 * 65 - 9, 68, rs3::<65>, [0, 7, 8, 31, 32, 64]);
     rank_harness!(rs3_n33_len2111, 33, 2111, 36, rs3::<33>);
     rank_harness!(rs3_n33_len2049, 33, 2049, 36, rs3::<33>);
-    rank_harness!(rs3_n65_len4159, 65, 4159, 68, rs3::<65>);
-    rank_harness!(rs3_n65_len4097, 65, 4097, 68, rs3::<65>);
 }
